@@ -62,7 +62,61 @@ def index_offsets(fn, what):
     return res
 
 
+def plain_function(tree, name, rel, cls=None):
+    """the modelled function must be a plain `def`: no decorator (caching / wrapping changes what a call returns
+    without changing the body the fingerprints hash), defined once, and its name not re-bound at the same level"""
+    scope = tree.body
+    if cls is not None:
+        cs = [n for n in tree.body if isinstance(n, ast.ClassDef) and n.name == cls]
+        if len(cs) != 1:
+            raise TranslateError('%s: class %s not found' % (rel, cls))
+        scope = cs[0].body
+    defs = [n for n in scope if isinstance(n, (ast.FunctionDef, ast.AsyncFunctionDef)) and n.name == name]
+    if len(defs) != 1 or not isinstance(defs[0], ast.FunctionDef):
+        raise TranslateError('%s: exactly one plain `def %s` expected, found %d' % (rel, name, len(defs)))
+    if defs[0].decorator_list:
+        raise TranslateError('%s: %s is decorated with %s — the model describes the undecorated function'
+                             % (rel, name, ', '.join('@' + unparse(d) for d in defs[0].decorator_list)))
+    for n in scope:
+        tgts = []
+        if isinstance(n, ast.Assign):
+            tgts = n.targets
+        elif isinstance(n, (ast.AugAssign, ast.AnnAssign)):
+            tgts = [n.target]
+        for t in tgts:
+            for sub in ast.walk(t):
+                if isinstance(sub, ast.Name) and sub.id == name:
+                    raise TranslateError('%s: the name %s is re-bound by an assignment (line %d)' % (rel, name, n.lineno))
+    if cls is not None:
+        if cs[0].decorator_list:
+            raise TranslateError('%s: class %s is decorated' % (rel, cls))
+
+
+PLAIN = [
+    ('supported_labels_rf_use.py', None, ['get_supported_labels', 'get_supported_rf_uses']),
+    ('make_label.py', None, ['make_label']),
+    ('make_trigger.py', None, ['make_trigger']),
+    ('make_digital_output_pulse.py', None, ['make_digital_output_pulse']),
+    ('make_delay.py', None, ['make_delay']),
+    ('Sequence/block.py', None, ['set_block', 'get_block', 'register_control_event', 'register_label_event']),
+    ('Sequence/write_seq.py', None, ['write']),
+    ('Sequence/read_seq.py', None, ['read']),
+    ('Sequence/sequence.py', 'Sequence', ['evaluate_labels', 'get_extension_type_ID', 'get_extension_type_string',
+                                          'set_extension_string_ID', 'register_label_event', 'add_block', 'set_block',
+                                          'get_block', 'read', 'write']),
+    ('event_lib.py', 'EventLibrary', ['find', 'find_or_insert', 'insert']),
+]
+
+
+def check_plain():
+    for rel, cls, names in PLAIN:
+        t, _ = parse(rel)
+        for nm in names:
+            plain_function(t, nm, rel, cls)
+
+
 def sec_labels():
+    check_plain()
     out = HEADER % ('supported_labels_rf_use.py, make_label.py, make_trigger.py, make_digital_output_pulse.py, '
                     'Sequence/block.py, Sequence/write_seq.py, Sequence/read_seq.py')
     out += 'Open Scope Z_scope.\n'
